@@ -24,7 +24,13 @@
       `C15_cut_area_conserved_inner` (the signed areas of the new triangles add up to the old ones).
   (e) findings: `C15_D9_witness` (swap_edge on unit_triangles(1) moves two corners and halves the area) with
       `C15_swap_area_partial` (the specified retriangulation conserves the area when no coordinate moves);
-      `C15_D15a_witness` … `C15_D15e_witness`, `C15_D15g_witness` (`decide +kernel` on small meshes showing each finding).
+      `C15_D15a_witness`, `C15_D15d_witness`, `C15_D15e_witness`, `C15_D15g_witness` (`decide +kernel` on small meshes).
+  (f) former findings D15b / D15c, fixed in /repo 27a7433 / aac3ec9 — positive statements:
+      `C15_cutOuter_second_half_anchored` (every map, configuration and spare numbering: after a successful
+      cut_outer_edge the edge of nd3 carries the cut edge's EdgeAnchor), `C15_cut_midpoint_under_vertex_id` (both cut
+      kernels write the midpoint under `vertex_id(nd1)` as computed at the write), `C15_cutOuter_unit_square_all_orders`
+      (all six spare numberings: vertex id = min(nd1, nd3), midpoint there, both halves on the curve, vertex / faces
+      anchored), `C15_cutInner_unit_square_orders`.
 
   NOT PROVED (validated on every case by the oracle of tools/props/c15.py)
   * that a successful `collapse_edge` only flags free darts and only sews non-null darts (the two side
@@ -379,6 +385,16 @@ theorem ao_spreadEdgeAnchor (cfg : Cfg Val) (k : Nat) (ea : Option Val) (a : Nat
   · refine AttrOnly.bind (C01.ao_vid _ _) fun _ => ?_
     exact AttrOnly.bind (ao_writeAttr _ _ _ _) fun _ => AttrOnly.pure _
 
+theorem ao_spreadEdgeAnchorOuter (cfg : Cfg Val) (k : Nat) (ea : Option Val) (a b : Nat) :
+    AttrOnly (spreadEdgeAnchorOuter cfg k ea a b) := by
+  unfold spreadEdgeAnchorOuter
+  cases ea
+  · exact AttrOnly.pure _
+  · refine AttrOnly.bind (C01.ao_vid _ _) fun _ => ?_
+    refine AttrOnly.bind (ao_writeAttr _ _ _ _) fun _ => ?_
+    refine AttrOnly.bind (C01.ao_eid _) fun _ => ?_
+    exact AttrOnly.bind (ao_writeAttr _ _ _ _) fun _ => AttrOnly.pure _
+
 /-! ## (a) cut_outer_edge -/
 
 /-- `cut_outer_edge` after the reads of `β0(e)`, `β1(e)` -/
@@ -387,7 +403,8 @@ def cutOuterTail (cfg : Cfg Val) (n ld nd1 nd2 nd3 : Nat) (fAnchor eAnchor : Opt
   let vid1 ← vertexId2 n ld
   let vid2 ← vertexId2 n b1ld
   let newV ← midpointOrRetry vid1 vid2
-  let _ ← writeVtx nd1 newV
+  let newVid ← vertexId2 n nd1
+  let _ ← writeVtx newVid newV
   oneUnsew2 cfg n ld
   oneUnsew2 cfg n b1ld
   oneSew2 cfg n ld nd1
@@ -395,7 +412,7 @@ def cutOuterTail (cfg : Cfg Val) (n ld nd1 nd2 nd3 : Nat) (fAnchor eAnchor : Opt
   oneSew2 cfg n nd3 b1ld
   oneSew2 cfg n b1ld nd2
   spreadFaceAnchor cfg n fAnchor nd1 nd2
-  spreadEdgeAnchor cfg n eAnchor nd1
+  spreadEdgeAnchorOuter cfg n eAnchor nd1 nd3
 
 theorem keeps_cutOuterTail (cfg : Cfg Val) (k : Nat) {ld nd1 nd2 nd3 b0ld b1ld : Nat} (fa ea : Option Val)
     (hl : Live n u ld) (h1 : Live n u nd1) (h2 : Live n u nd2) (h3 : Live n u nd3)
@@ -405,6 +422,7 @@ theorem keeps_cutOuterTail (cfg : Cfg Val) (k : Nat) {ld nd1 nd2 nd3 b0ld b1ld :
   refine Keeps.ro_bind (readOnly_vertexId2 _ _) fun _ => ?_
   refine Keeps.ro_bind (readOnly_vertexId2 _ _) fun _ => ?_
   refine Keeps.bind (Keeps.of_attrOnly (ao_midpointOrRetry _ _)) fun _ => ?_
+  refine Keeps.ro_bind (readOnly_vertexId2 _ _) fun _ => ?_
   refine Keeps.bind (Keeps.of_attrOnly (ao_writeVtx _ _)) fun _ => ?_
   refine Keeps.bind (keeps_oneUnsew2 cfg k hl) fun _ => ?_
   refine Keeps.bind (keeps_oneUnsew2 cfg k hb1) fun _ => ?_
@@ -413,7 +431,7 @@ theorem keeps_cutOuterTail (cfg : Cfg Val) (k : Nat) {ld nd1 nd2 nd3 b0ld b1ld :
   refine Keeps.bind (keeps_oneSew2 cfg k h3 hb1) fun _ => ?_
   refine Keeps.bind (keeps_oneSew2 cfg k hb1 h2) fun _ => ?_
   refine Keeps.bind (Keeps.of_attrOnly (ao_spreadFaceAnchor _ _ _ _ _)) fun _ => ?_
-  exact Keeps.of_attrOnly (ao_spreadEdgeAnchor _ _ _ _)
+  exact Keeps.of_attrOnly (ao_spreadEdgeAnchorOuter _ _ _ _ _)
 
 /-- a free in-use dart -/
 def Spare (m : Map Val) (d : Nat) : Prop := C01.InUse m d ∧ m.isFree 3 d = true
@@ -464,7 +482,8 @@ def cutInnerTail (cfg : Cfg Val) (n ld rd nd1 nd2 nd3 nd4 nd5 nd6 : Nat) (lf rf 
   let vid1 ← vertexId2 n ld
   let vid2 ← vertexId2 n b1ld
   let newV ← midpointOrRetry vid1 vid2
-  let _ ← writeVtx nd1 newV
+  let newVid ← vertexId2 n nd1
+  let _ ← writeVtx newVid newV
   twoUnsew2 cfg n ld
   oneUnsew2 cfg n ld
   oneUnsew2 cfg n b1ld
@@ -494,6 +513,7 @@ theorem keeps_cutInnerTail (cfg : Cfg Val) (k : Nat) {ld rd nd1 nd2 nd3 nd4 nd5 
   refine Keeps.ro_bind (readOnly_vertexId2 _ _) fun _ => ?_
   refine Keeps.ro_bind (readOnly_vertexId2 _ _) fun _ => ?_
   refine Keeps.bind (Keeps.of_attrOnly (ao_midpointOrRetry _ _)) fun _ => ?_
+  refine Keeps.ro_bind (readOnly_vertexId2 _ _) fun _ => ?_
   refine Keeps.bind (Keeps.of_attrOnly (ao_writeVtx _ _)) fun _ => ?_
   refine Keeps.bind (keeps_twoUnsew2 cfg k hl) fun _ => ?_
   refine Keeps.bind (keeps_oneUnsew2 cfg k hl) fun _ => ?_
@@ -1619,20 +1639,136 @@ theorem C15_D9_witness :
     cross ⟨1/2, 0⟩ ⟨1/2, 1⟩ ⟨0, 1⟩ + cross ⟨1, 0⟩ ⟨1/2, 1⟩ ⟨1/2, 0⟩ = 1 := by
   refine ⟨by decide, by decide +kernel, by decide +kernel, by decide +kernel, by decide +kernel⟩
 
-/-- **C15 (e), D15b**: `cut_outer_edge(1, [7, 8, 9])` on the anchored unit square succeeds; the first half of the cut
-    edge keeps its curve anchor, the second half (dart 9, an edge of its own: β2(9) = null) has none -/
-theorem C15_D15b_witness :
-    let m := (unitSquareAnchored.addFreeDarts 3).2
-    let r := run (cutOuterEdge (stdCfg 3 224) 10 1 7 8 9) m
-    r.1 = .ok () ∧ r.2.β 2 9 = 0 ∧ r.2.att 7 1 = tml 1 ∧ r.2.att 7 9 = none := by
+/-! ### former findings D15b, D15c (fixed in /repo 27a7433, aac3ec9): positive statements -/
+
+theorem rA_ok {α : Type} {s d : Nat} {k : Option Val → P Val α} {m m' : Map Val} {a : α}
+    (h : run ((rA s d).bind k) m = (.ok a, m')) : m.okA s d = true ∧ run (k (m.att s d)) m = (.ok a, m') := by
+  rw [run_rA] at h
+  by_cases hok : m.okA s d = true
+  · exact ⟨hok, by simpa [hok] using h⟩
+  · simp [hok] at h
+
+theorem wA_ok {α : Type} {s d : Nat} {v : Option Val} {k : Unit → P Val α} {m m' : Map Val} {a : α}
+    (h : run ((wA s d v).bind k) m = (.ok a, m')) : m.okA s d = true ∧ run (k ()) (m.setA s d v) = (.ok a, m') := by
+  rw [run_wA] at h
+  by_cases hok : m.okA s d = true
+  · exact ⟨hok, by simpa [hok] using h⟩
+  · simp [hok] at h
+
+/-- **C15 (d), /repo aac3ec9 (former D15c)**: both cut kernels store the midpoint under the identifier of the new
+    vertex — the value of `vertex_id(nd1)` at the time of the write (`nd1` and `nd3` are already linked into one
+    vertex), whatever the numbering of the spare darts; no other slot of any storage changes at that step -/
+theorem C15_cut_midpoint_under_vertex_id (k nd1 : Nat) (v : Val) (m m' : Map Val) (old : Option Val)
+    (h : run (do let newVid ← vertexId2 k nd1; writeVtx newVid v : P Val (Option Val)) m = (.ok old, m')) :
+    ∃ vid, run (vertexId2 k nd1) m = (.ok vid, m) ∧ m.okA 0 vid = true ∧ m' = m.setA 0 vid (some v) ∧
+      m'.att 0 vid = some v ∧ old = m.att 0 vid := by
+  obtain ⟨vid, hv, h⟩ := ro_bind_ok (readOnly_vertexId2 _ _) h
+  unfold writeVtx at h
+  obtain ⟨hok, h⟩ := rA_ok h
+  obtain ⟨_, h⟩ := wA_ok h
+  simp at h
+  refine ⟨vid, hv, hok, h.2.symm, ?_, h.1.symm⟩
+  rw [← h.2, Map.att_setA]
+  simp [hok]
+
+theorem att_takeFaceAnchor {cfg : Cfg Val} {k d : Nat} {m m' : Map Val} {o : Option Val}
+    (h : run (takeFaceAnchor cfg k d) m = (.ok o, m')) : ∀ i, m'.att stEA i = m.att stEA i := by
+  intro i
+  unfold takeFaceAnchor removeAttr at h
+  by_cases hr : regd cfg stFA = true
+  · simp only [hr, if_true] at h
+    obtain ⟨fid, _, h⟩ := ro_bind_ok (readOnly_faceId2 _ _) h
+    obtain ⟨_, h⟩ := rA_ok h
+    obtain ⟨_, h⟩ := wA_ok h
+    simp at h
+    rw [← h.2, Map.att_setA]
+    simp [stFA, stEA]
+  · simp [hr] at h
+    rw [h.2]
+
+theorem run_edgeId2 (d : Nat) (m : Map Val) : run (edgeId2 (X := Val) d) m =
+    if m.okβ 2 d then (.ok (if m.β 2 d = 0 then d else min (m.β 2 d) d), m) else (.panic, m) := by
+  unfold edgeId2
+  simp only [Prog.bind_eq, bind, run_rB]
+  split
+  · split <;> simp
+  · rfl
+
+/-- **C15, /repo 27a7433 (former D15b)**: after EVERY successful `cut_outer_edge` on a map with the EdgeAnchor storage,
+    the second half of the cut edge — the edge of the new dart `nd3` in the resulting map — carries the anchor the cut
+    edge had (read at `e`), for every map, configuration and numbering of the spare darts -/
+theorem C15_cutOuter_second_half_anchored (cfg : Cfg Val) (k e nd1 nd2 nd3 : Nat) (m m' : Map Val) (a : Val)
+    (hreg : regd cfg stEA = true) (ha : m.att stEA e = some a)
+    (h : run (cutOuterEdge cfg k e nd1 nd2 nd3) m = (.ok (), m')) :
+    ∃ eid, run (edgeId2 nd3) m' = (.ok eid, m') ∧ m'.att stEA eid = some a := by
+  unfold cutOuterEdge at h
+  obtain ⟨_, m1, r1, h1⟩ := run_bind_ok h
+  clear h
+  obtain ⟨_, _, _, _, rfl⟩ := iLinkCore_ok r1
+  obtain ⟨_, m2, r2, h2⟩ := run_bind_ok h1
+  clear h1
+  obtain ⟨_, _, _, _, rfl⟩ := oneLinkCore_ok r2
+  obtain ⟨fa, m3, r3, h3⟩ := run_bind_ok h2
+  clear h2
+  have e3 : m3.att stEA e = some a := by rw [att_takeFaceAnchor r3]; exact ha
+  obtain ⟨ea, m4, r4, h⟩ := run_bind_ok h3
+  clear h3
+  have hea : ea = some a ∧ m4 = m3 := by
+    unfold peekEdgeAnchor readAttr at r4
+    simp only [hreg, if_true, run_rA'] at r4
+    split at r4
+    · simp at r4; exact ⟨by rw [← r4.1, e3], r4.2.symm⟩
+    · simp at r4
+  obtain ⟨rfl, rfl⟩ := hea
+  -- the fourteen steps between the read of the edge anchor and the last block
+  iterate 14 obtain ⟨_, _, _, h⟩ := run_bind_ok h
+  unfold spreadEdgeAnchorOuter at h
+  obtain ⟨vid, _, h⟩ := ro_bind_ok (readOnly_vertexId2 _ _) h
+  obtain ⟨_, m5, r5, h⟩ := run_bind_ok h
+  obtain ⟨eid, hE, h⟩ := ro_bind_ok (readOnly_edgeId2 _) h
+  unfold writeAttr at h
+  simp only [hreg, if_true, Prog.bind_eq, bind, Prog.bind_assoc, Prog.pure_eq, Prog.ret_bind] at h
+  obtain ⟨hok, h⟩ := rA_ok h
+  obtain ⟨_, h⟩ := wA_ok h
+  simp at h
+  refine ⟨eid, ?_, ?_⟩
+  · rw [← h]
+    rw [run_edgeId2] at hE ⊢
+    simp only [Map.okβ_setA, Map.β_setA]
+    by_cases hb : m5.okβ 2 nd3 = true
+    · simp only [hb, if_true, Prod.mk.injEq, Out.ok.injEq] at hE ⊢
+      exact ⟨hE.1, trivial⟩
+    · simp [hb] at hE
+  · rw [← h, Map.att_setA]
+    simp [hok]
+
+/-- all six numberings of the three spare darts -/
+def perms3 : List (Nat × Nat × Nat) := [(7, 8, 9), (7, 9, 8), (8, 7, 9), (8, 9, 7), (9, 7, 8), (9, 8, 7)]
+
+/-- **C15, former D15c and D15b on the unit square, every numbering of the spare darts**: `cut_outer_edge(1, [nd1, nd2,
+    nd3])` succeeds, the new vertex has the identifier `min(nd1, nd3)` and reads the midpoint `(1/2, 0)` there; on the
+    anchored square both halves of the cut edge (the edges of darts 1 and nd3) carry its curve anchor C0, the new vertex
+    is on curve 0, both new faces on surface 0 -/
+theorem C15_cutOuter_unit_square_all_orders :
+    ∀ p ∈ perms3,
+      let r := run (cutOuterEdge (stdCfg 3 0) 10 1 p.1 p.2.1 p.2.2) (unitSquare.addFreeDarts 3).2
+      let q := run (cutOuterEdge (stdCfg 3 224) 10 1 p.1 p.2.1 p.2.2) (unitSquareAnchored.addFreeDarts 3).2
+      r.1 = .ok () ∧ (run (vertexId2 10 p.1) r.2).1 = .ok (min p.1 p.2.2) ∧
+      r.2.att 0 (min p.1 p.2.2) = some (.pt (1/2) 0 0) ∧ WF 3 r.2 ∧
+      q.1 = .ok () ∧ q.2.att 0 (min p.1 p.2.2) = some (.pt (1/2) 0 0) ∧
+      q.2.β 2 p.2.2 = 0 ∧ q.2.att stEA 1 = tml 1 ∧ q.2.att stEA p.2.2 = tml 1 ∧
+      q.2.att stVA (min p.1 p.2.2) = tml 1 ∧ q.2.att stFA 1 = tml 2 ∧ q.2.att stFA (min 2 (min p.2.1 p.2.2)) = tml 2 := by
   decide +kernel
 
-/-- **C15 (e), D15c**: `cut_outer_edge(1, [9, 8, 7])` on the unit square succeeds; the new vertex (darts 7 and 9,
-    identifier 7) has no coordinates: the midpoint sits in slot 9 -/
-theorem C15_D15c_witness :
-    let m := (unitSquare.addFreeDarts 3).2
-    let r := run (cutOuterEdge (stdCfg 3 0) 10 1 9 8 7) m
-    r.1 = .ok () ∧ (run (vertexId2 10 9) r.2).1 = .ok 7 ∧ r.2.att 0 7 = none ∧ r.2.att 0 9 = some (.pt (1/2) 0 0) := by
+/-- the same for `cut_inner_edge(2, …)` on the unit square with the natural, the reversed and two mixed numberings: the
+    new vertex (darts nd1, nd3, nd4, nd6) reads the midpoint `(1/2, 1/2)` at its identifier -/
+theorem C15_cutInner_unit_square_orders :
+    ∀ p ∈ [[7, 8, 9, 10, 11, 12], [12, 11, 10, 9, 8, 7], [9, 8, 7, 12, 11, 10], [10, 7, 12, 9, 8, 11]],
+      let r := run (cutInnerEdge (stdCfg 3 0) 13 2 (p.getD 0 0) (p.getD 1 0) (p.getD 2 0) (p.getD 3 0) (p.getD 4 0)
+        (p.getD 5 0)) (unitSquare.addFreeDarts 6).2
+      let v := min (min (p.getD 0 0) (p.getD 2 0)) (min (p.getD 3 0) (p.getD 5 0))
+      r.1 = .ok () ∧ (run (vertexId2 13 (p.getD 0 0)) r.2).1 = .ok v ∧ r.2.att 0 v = some (.pt (1/2) (1/2) 0) ∧
+      WF 3 r.2 := by
   decide +kernel
 
 /-- **C15 (e), D15e**: `collapse_edge(5)` on the anchored unit square (vertex 2 a node, vertex 6 on a curve: collapse
@@ -1758,6 +1894,23 @@ example : (atomically (collapseEdgeA (stdCfg 3 224) 7 5) unitSquareAnchored).1 =
 
 example : WF 3 (atomically (collapseEdgeA (stdCfg 3 224) unitSquareAnchored.n 5) unitSquareAnchored).2 :=
   C15_collapse_preserves_WF _ _ _ (by decide) (by decide) (by decide +kernel)
+
+/-- `C15_cutOuter_second_half_anchored` applies to the anchored unit square (edge 1 lies on curve 0, code 1), here with
+    the spare darts in the order that used to lose the vertex (former D15c) -/
+example : ∃ eid, run (edgeId2 7) (run (cutOuterEdge (stdCfg 3 224) 10 1 9 8 7) (unitSquareAnchored.addFreeDarts 3).2).2
+      = (.ok eid, (run (cutOuterEdge (stdCfg 3 224) 10 1 9 8 7) (unitSquareAnchored.addFreeDarts 3).2).2) ∧
+    (run (cutOuterEdge (stdCfg 3 224) 10 1 9 8 7) (unitSquareAnchored.addFreeDarts 3).2).2.att stEA eid
+      = some (.tm (.leaf 1)) :=
+  C15_cutOuter_second_half_anchored (stdCfg 3 224) 10 1 9 8 7 (unitSquareAnchored.addFreeDarts 3).2 _ (.tm (.leaf 1))
+    (by decide) (by decide +kernel)
+    (by
+      have : (run (cutOuterEdge (stdCfg 3 224) 10 1 9 8 7) (unitSquareAnchored.addFreeDarts 3).2).1 = .ok () := by
+        decide +kernel
+      exact Prod.ext this rfl)
+
+/-- `C15_cut_midpoint_under_vertex_id`: a successful write step (vertex of the free dart 9 of the enlarged unit square) -/
+example : (run (do let newVid ← vertexId2 10 9; writeVtx newVid (.pt (1/2) 0 0) : P Val (Option Val))
+    (unitSquare.addFreeDarts 3).2).1 = .ok none := by decide +kernel
 
 /-- an error of a kernel leaves the map unchanged: the swap of a boundary edge -/
 example : (atomically (swapEdge (stdCfg 3 0) 7 1) unitSquare).1 = .err errIncompleteEdge ∧
